@@ -42,13 +42,14 @@ Definition a_del_layer (l : nat) (s : astate) : astate :=
   mkA (a_node s) (fun l' => if Nat.eqb l l' then None else a_kind s l')
       (fun l' x y => negb (Nat.eqb l l') && a_edge s l' x y).
 Definition a_set_gattr (_ : attrs) (s : astate) : astate := s.
+Definition a_clear_all (s : astate) : astate := mkA (fun _ => false) (a_kind s) (fun _ _ _ => false).
 Definition a_restrict (ns : list nat) (s : astate) : astate :=
   mkA (fun m => a_node s m && memb m ns) (a_kind s)
       (fun l x y => a_edge s l x y && memb x ns && memb y ns).
 
 Definition AA : alg astate :=
   mkAlg astate a_node a_kind a_edge a_add_node a_del_node a_ins_edge a_del_edge a_clear a_add_layer a_del_layer
-        a_set_gattr a_restrict.
+        a_set_gattr a_clear_all a_restrict.
 
 (* abstraction of a concrete container state *)
 Definition abs (s : mstate) : astate := mkA (c_has_node s) (c_layer_kind s) (c_has_edge s).
@@ -104,11 +105,31 @@ Definition mixed_queries_stmt : Prop :=
     q_size s = q_noe s.
 
 (* number_of_edges(edge_type=l) and degree()[l][n] are computed from the stored edge list (its length, its
-   incidences). What is proved about them: the stored list holds every abstract edge exactly once (edges_nodup_stmt,
-   unbounded) and the handshake identity above. The final counting step "hence length = cardinality of the abstract
-   set" is NOT proved in Coq; it is observed by the tie on every case (fields number_of_edges_layer, degree).
-   Attributes are not part of the abstract state: the copy clause covers them by Leibniz equality of concrete states,
-   the dict.update semantics of attribute writes is observed by the tie only. *)
+   incidences). They are the cardinality / incidence count of the ABSTRACT edge set: [P] is a duplicate-free enumeration
+   of the edge set [edge] of a layer of kind [k] (one representative per edge; for Und either orientation) *)
+Definition represents (k : kind) (edge : nat -> nat -> bool) (P : list (nat * nat)) : Prop :=
+  NoDup P /\
+  (forall p q, In p P -> In q P -> same_edge k (fst p) (snd p) (fst q) (snd q) = true -> p = q) /\
+  (forall x y, edge x y = true <-> exists p, In p P /\ same_edge k (fst p) (snd p) x y = true).
+(* incidences of n: an Und self loop counts twice, Dir: in-degree + out-degree (networkx's degree) *)
+Definition incidences (n : nat) (P : list (nat * nat)) : nat :=
+  length (filter (fun p => Nat.eqb n (fst p)) P) + length (filter (fun p => Nat.eqb n (snd p)) P).
+
+Definition mixed_queries_counts_stmt : Prop :=
+  forall cls h s, In s (run cls h) ->
+    let a := abs s in
+    (* number_of_edges(edge_type=l) = |edge set of l| and degree()[l][n] = incidences of n, for EVERY enumeration P *)
+    (forall y P, In y (layers s) -> represents (lkind y) (a_edge a (lname y)) P ->
+       q_noe_layer y = length P /\ forall n, q_degree y n = incidences n P) /\
+    (* ... and such an enumeration exists (non-vacuity) *)
+    (forall y, In y (layers s) -> exists P, represents (lkind y) (a_edge a (lname y)) P) /\
+    (* number_of_edges() is the sum of the layers' cardinalities *)
+    q_noe s = list_sum (map q_noe_layer (layers s)) /\
+    (* edges(data=True)[l] / adj[l] (observed as tables): an entry exactly for the edges of the abstract set *)
+    (forall y u v, In y (layers s) ->
+       (edge_attrs (lkind y) (ledges y) u v <> None <-> a_edge a (lname y) u v = true)).
+
+(* Attributes are not part of this structural abstract state; see the attribute section at the end of this file. *)
 Definition edges_nodup (s : mstate) : Prop :=
   forall y, In y (layers s) ->
     NoDup (map fst (ledges y)) /\
@@ -134,3 +155,77 @@ Definition subgraph_exact_stmt : Prop :=
       (forall n, c_has_node s' n = true <-> In n ns) /\
       (forall l, c_layer_kind s' l = c_layer_kind s l) /\
       (forall l u v, c_has_edge s' l u v = c_has_edge s l u v && memb u ns && memb v ns).
+
+(* ------------------------------------------------------------------ attributes at the abstract level
+   Abstract attribute dicts are functions key -> option value; an attribute write is dict.update ([dupd]).
+   The extended abstract state pairs the structural state with the attribute maps; its operation semantics is again
+   the generic step of Model.v, instantiated with [XA]. copy (generic [step]) duplicates the pair, i.e. all
+   attributes; subgraph keeps graph attributes only (what the tie normalises the implementation to). *)
+Definition adict := nat -> option nat.
+Definition dnone : adict := fun _ => None.
+Definition dupd (new : attrs) (old : adict) : adict :=
+  fun k => match alookup k new with Some v => Some v | None => old k end.
+Definition dict_of (o : option attrs) : adict := fun k => match o with Some a => alookup k a | None => None end.
+
+Record xattr := mkX {
+  x_nattr : nat -> adict;                     (* node -> dict (dnone for absent nodes) *)
+  x_eattr : nat -> nat -> nat -> adict;       (* layer, u, v -> dict (dnone for absent edges) *)
+  x_gattr : adict }.
+Definition xeq (a b : xattr) : Prop :=
+  (forall n k, x_nattr a n k = x_nattr b n k) /\ (forall l u v k, x_eattr a l u v k = x_eattr b l u v k) /\
+  (forall k, x_gattr a k = x_gattr b k).
+
+Definition xp_add_node (n : nat) (at_ : attrs) (a : astate) (x : xattr) : xattr :=
+  mkX (fun m => if Nat.eqb n m then dupd at_ (x_nattr x m) else x_nattr x m) (x_eattr x) (x_gattr x).
+Definition xp_del_node (n : nat) (a : astate) (x : xattr) : xattr :=
+  mkX (fun m => if Nat.eqb n m then dnone else x_nattr x m)
+      (fun l u v => if negb (Nat.eqb n u) && negb (Nat.eqb n v) then x_eattr x l u v else dnone) (x_gattr x).
+Definition xp_ins_edge (t : sel) (u v : nat) (at_ : attrs) (a : astate) (x : xattr) : xattr :=
+  mkX (x_nattr x)
+      (fun l p q => if a_node a u && a_node a v && hits a t u v l p q then dupd at_ (x_eattr x l p q)
+                    else x_eattr x l p q) (x_gattr x).
+Definition xp_del_edge (t : sel) (u v : nat) (a : astate) (x : xattr) : xattr :=
+  mkX (x_nattr x) (fun l p q => if hits a t u v l p q then dnone else x_eattr x l p q) (x_gattr x).
+Definition xp_clear (t : sel) (a : astate) (x : xattr) : xattr :=
+  mkX (x_nattr x) (fun l p q => if sel_match t l then dnone else x_eattr x l p q) (x_gattr x).
+Definition xp_del_layer (l : nat) (a : astate) (x : xattr) : xattr :=
+  mkX (x_nattr x) (fun l' p q => if Nat.eqb l l' then dnone else x_eattr x l' p q) (x_gattr x).
+Definition xp_set_gattr (at_ : attrs) (a : astate) (x : xattr) : xattr :=
+  mkX (x_nattr x) (x_eattr x) (dupd at_ (x_gattr x)).
+Definition xp_clear_all (a : astate) (x : xattr) : xattr := mkX (fun _ => dnone) (fun _ _ _ => dnone) dnone.
+Definition xp_restrict (ns : list nat) (a : astate) (x : xattr) : xattr :=
+  mkX (fun _ => dnone) (fun _ _ _ => dnone) (x_gattr x).
+
+Definition xstate := (astate * xattr)%type.
+Definition lift (f : astate -> astate) (g : astate -> xattr -> xattr) (t : xstate) : xstate :=
+  (f (fst t), g (fst t) (snd t)).
+Definition XA : alg xstate :=
+  mkAlg xstate (fun t => a_node (fst t)) (fun t => a_kind (fst t)) (fun t => a_edge (fst t))
+        (fun n at_ => lift (a_add_node n at_) (xp_add_node n at_))
+        (fun n => lift (a_del_node n) (xp_del_node n))
+        (fun t u v at_ => lift (a_ins_edge t u v at_) (xp_ins_edge t u v at_))
+        (fun t u v => lift (a_del_edge t u v) (xp_del_edge t u v))
+        (fun t => lift (a_clear t) (xp_clear t))
+        (fun l k => lift (a_add_layer l k) (fun _ x => x))
+        (fun l => lift (a_del_layer l) (xp_del_layer l))
+        (fun at_ => lift (a_set_gattr at_) (xp_set_gattr at_))
+        (lift a_clear_all xp_clear_all)
+        (fun ns => lift (a_restrict ns) (xp_restrict ns)).
+
+Definition absx (s : mstate) : xattr :=
+  mkX (fun n => dict_of (node_attrs n (nodes s)))
+      (fun l u v => match find_layer l (layers s) with
+                    | Some y => dict_of (edge_attrs (lkind y) (ledges y) u v)
+                    | None => dnone
+                    end)
+      (dict_of (Some (gattrs s))).
+Definition x_none : xattr := mkX (fun _ => dnone) (fun _ _ _ => dnone) dnone.
+Definition x_init (cls : nat) : list xstate := map (fun a => (a, x_none)) (a_init cls).
+Definition run_x (cls : nat) (h : list (nat * op)) : list xstate := run_from XA (x_init cls) h.
+
+(* (1') refinement including attributes: node, edge and graph attribute dicts of every object after ANY history are
+   what dict.update semantics on the abstract state gives; in particular a copy (which duplicates the abstract pair)
+   carries all attributes, and later writes to one object do not reach the other *)
+Definition mixed_refines_attrs_stmt : Prop :=
+  forall cls h,
+    Forall2 (fun s t => aeq (abs s) (fst t) /\ xeq (absx s) (snd t)) (run cls h) (run_x cls h).
